@@ -513,6 +513,51 @@ func runC19(p *core.Prog, r *core.Result) {
 							if !plainOnly && allRunesPlain(p, h, hp, hr, plain) {
 								plainOnly = true
 							}
+							// or a named predicate over the key (isBareKey(name)) that says yes only behind the
+							// all-runes-plain loop, and only for a non-empty name
+							if !plainOnly {
+								for f := range p.FactsAt(hr) {
+									gc, isCall := f.Cond.(*ssa.Call)
+									if !isCall || !f.Val || len(gc.Call.Args) != 1 || core.Unwrap(gc.Call.Args[0]) != ssa.Value(hp) {
+										continue
+									}
+									g := core.Callee(gc)
+									if g == nil || !core.InModule(g) || g.Blocks == nil || len(g.Params) != 1 {
+										continue
+									}
+									gp := g.Params[0]
+									allYes, some, allNonEmpty := true, false, true
+									for _, gr := range core.ReturnsOf(g) {
+										gv := core.RetVals(gr)
+										if len(gv) != 1 {
+											allYes = false
+											continue
+										}
+										if b, isConst := core.ConstBool(gv[0]); isConst && !b {
+											continue
+										}
+										some = true
+										if !allRunesPlain(p, g, gp, gr, plain) {
+											allYes = false
+										}
+										ne := false
+										for gf := range p.FactsAt(gr) {
+											if emptyTest(gf.Cond, gf.Val, gp) {
+												ne = true
+											}
+										}
+										if !ne {
+											allNonEmpty = false
+										}
+									}
+									if allYes && some {
+										plainOnly = true
+										if allNonEmpty {
+											nonEmpty = true
+										}
+									}
+								}
+							}
 							if !plainOnly {
 								okAll = false
 							}
@@ -728,7 +773,56 @@ func checkJoinPathVersion(p *core.Prog, r *core.Result, rule string) {
 			construct := fmt.Sprintf("internal/project.JoinPathVersion#drops-suffix-%d", nBare)
 			var consts []string
 			ok := true
-			if k, found := eqConst(p.FactsAt(ret)); found {
+			// the test may be a named predicate (isImplicitMajor(major)): every way in which it says yes carries an
+			// equality of its parameter with a constant
+			viaHelper := false
+			p.FactsAt(ret).Find(func(c ssa.Value, v bool) bool {
+				hc, isCall := c.(*ssa.Call)
+				if !isCall || !v || viaHelper {
+					return false
+				}
+				h := core.Callee(hc)
+				if h == nil || !core.InModule(h) || h.Blocks == nil {
+					return false
+				}
+				cases, sub := p.CalleeCases(hc, true)
+				if len(cases) == 0 {
+					return false
+				}
+				var ks []string
+				for _, fs := range cases {
+					k, found := "", false
+					fs.Find(func(cc ssa.Value, vv bool) bool {
+						b, ok := cc.(*ssa.BinOp)
+						if !ok {
+							return false
+						}
+						var prm, other ssa.Value = b.X, b.Y
+						if sub[prm] != majorP {
+							prm, other = b.Y, b.X
+						}
+						if sub[prm] != majorP {
+							return false
+						}
+						kk, isConst := core.ConstString(other)
+						if isConst && (b.Op == token.EQL && vv || b.Op == token.NEQ && !vv) {
+							k, found = kk, true
+							return true
+						}
+						return false
+					})
+					if !found {
+						return false
+					}
+					ks = append(ks, strconv.Quote(k))
+				}
+				viaHelper = true
+				consts = append(consts, ks...)
+				return true
+			})
+			if viaHelper {
+				// decided through the predicate
+			} else if k, found := eqConst(p.FactsAt(ret)); found {
 				consts = append(consts, strconv.Quote(k))
 			} else {
 				// a || b || c: the block is entered from several tests; every entering edge carries an equality
